@@ -79,7 +79,8 @@ class FakeManager:
         vid = (extra_args or {}).get("VersionId")
         i = int(vid[1:])
         self.requested.append(i)
-        fileobj.write(f"geographic_unit_fips,results_dem\nu{i},{i}\nw{i},{i}\n".encode())
+        # two rows of its own and one row that is identical in every version (most units do not change between versions)
+        fileobj.write(f"geographic_unit_fips,results_dem,results_gop,results_turnout\nu{i},{i},1,{i + 2}\nw{i},{i},1,{i + 2}\nsame,7,3,11\n".encode())
         return FakeFuture(i in self.failing)
 
 
@@ -123,12 +124,15 @@ def impl_run(case):
                 off = lm.utcoffset()
                 want = ts2dt(int(round((lm - BASE).total_seconds()))).astimezone(dateutil.tz.gettz(case["tz"])).utcoffset()
                 tz_ok = tz_ok and (off == want)
-            # two rows per version (u<i>, w<i>): both must carry their own version's time
+            # three rows per version (u<i>, w<i> and the row that is the same in every version): all carry their own version's time
             vers = []
-            for j in range(0, len(rows), 2):
-                a, b = rows[j], rows[j + 1] if j + 1 < len(rows) else None
-                if b is None or a[:2] != b[:2] or a[2] != f"u{a[1]}" or b[2] != f"w{b[1]}":
-                    vers.append(["row-mismatch", a, b])
+            for j in range(0, len(rows), 3):
+                a = rows[j]
+                b = rows[j + 1] if j + 1 < len(rows) else None
+                c = rows[j + 2] if j + 2 < len(rows) else None
+                if (b is None or c is None or a[:2] != b[:2] or a[2] != f"u{a[1]}" or b[2] != f"w{b[1]}" or c[2] != "same"
+                        or c[0] != a[0] or c[1] != 7):
+                    vers.append(["row-mismatch", a, b, c])
                 else:
                     vers.append([a[0], a[1]])
             out["get"] = vers
@@ -266,6 +270,64 @@ CORPUS = [
 ]
 
 
+def caller_stream(run, n):
+    """the caller's view: VersionedDataHandler.get_versioned_results over the scripted bucket. With no version in the window it returns
+    None ('no data'), never an error; otherwise a frame ordered by modification time"""
+    s3 = _s3mod()
+    from elexmodel.handlers.data.VersionedData import VersionedDataHandler
+
+    rng = run.rng
+    for k in range(n):
+        case = gen_case(rng)
+        if k % 3 == 0 and case["hist"]:
+            # force an empty window: it ends before the oldest version
+            case = dict(case, start=None, end=min(t for t, _ in case["hist"]) - 5)
+        want_list = spec(case)[0]
+        client = FakeClient([tuple(x) for x in case["hist"]], case["k"] + 1)
+        mgr = FakeManager(case["failing"])
+
+        class _Sess:
+            def create_client(self, name):
+                return client
+
+        iso = lambda t: None if t is None else ts2dt(t).isoformat()  # noqa: E731
+        orig = (s3.get_session, s3.TransferManager)
+        s3.get_session = lambda: _Sess()
+        s3.TransferManager = lambda c: mgr
+        try:
+            h = VersionedDataHandler("2022-11-08_USA_G", "S", "county", estimands=["dem"], start_date=iso(case["start"]),
+                                     end_date=iso(case["end"]), sample=case["sample"] + 1, tzinfo=case["tz"])
+        finally:
+            s3.get_session, s3.TransferManager = orig
+        c2 = dict(case, caller=True)
+        run.case(c2, True)
+        run.count("caller: " + ("empty window" if not want_list else "versions in window"))
+        try:
+            df = h.get_versioned_results()
+            got = None if df is None else list(df["last_modified"])
+        except ValueError as e:
+            if "No objects to concatenate" in str(e):
+                continue  # every sampled download failed: outside "as long as at least one succeeds"
+            got = {"raises": "ValueError"}
+        except Exception as e:
+            got = {"raises": type(e).__name__, "msg": str(e)[:160]}
+        if not want_list:
+            if got is not None:
+                run.violation("no version in the window: the caller does not receive 'no data' (None)", input=c2,
+                              impl=got if isinstance(got, dict) else f"{len(got)} rows", expected=None,
+                              predicate="get_none_when_empty", signature="C19:caller-empty")
+            else:
+                run.traces += 1
+        elif isinstance(got, dict) or got is None:
+            run.violation("versions in the window but the caller gets no frame", input=c2, impl=got, predicate="get_sound",
+                          signature="C19:caller")
+        elif any(a > b for a, b in zip(got, got[1:])):
+            run.violation("the caller's frame is not ordered by modification time", input=c2, predicate="get_sound",
+                          signature="C19:caller-order")
+        else:
+            run.traces += 1
+
+
 def extract(run):
     from harness import extract as X
 
@@ -299,6 +361,7 @@ def explore(run, driver, budget):
             run.count("with failing downloads")
         check_case(run, outs[idx] if outs else None, c, impl)
         run.traces += 1
+    caller_stream(run, {"quick": 60, "thorough": 2000, "search": 400}[budget])
 
 
 def replay(run, driver, payload):
